@@ -36,6 +36,12 @@ RetryOk == [i \in Inv |-> IF i = "i1" THEN <<"retry", "ok">> ELSE <<"ok">>]
 
 RetryFail == [i \in Inv |-> IF i = "i1" THEN <<"retry", "ok">> ELSE <<"fail">>]
 
+\* C19: i1 always asks for a retry (the last outcome repeats), i2 is fine
+AlwaysRetry == [i \in Inv |-> IF i = "i1" THEN <<"retry">> ELSE <<"ok">>]
+WaitI1 == {"i1"}
+BoundedC19 == /\ \A i \in Inv : execs[i] <= 4 /\ Len(changes[i]) <= 14
+              /\ Len(queue) <= 4
+
 Bounded == /\ \A i \in Inv : execs[i] <= 3 /\ Len(changes[i]) <= 9
            /\ Len(queue) <= 4
 =============================================================================
